@@ -597,7 +597,8 @@ __find_zrng(const struct zif_s z[static 1U], stamp_t t, int min, int max)
 		/* special case where no transitions are recorded */
 		res.trno = 0U;
 		res.prev = STAMP_MIN;
-		res.next = STAMP_MAX;
+		/* either no transitions at all, or T is before the first one */
+		res.next = z->ntr ? zif_trans(z, 0) : STAMP_MAX;
 	} else {
 		res.trno = (uint8_t)trno;
 		if (LIKELY(trno + 1U < z->ntr)) {
@@ -665,17 +666,11 @@ __offs(struct zif_s z[static 1U], stamp_t t)
 	if (LIKELY(t >= z->cache.prev && t < z->cache.next)) {
 		/* use the cached offset */
 		return z->cache.offs;
-	} else if (t >= z->cache.next) {
-		min = z->cache.trno + 1;
-		max = z->ntr;
-	} else if (t < z->cache.prev) {
-		max = z->cache.trno;
-		min = 0;
-	} else {
-		/* we shouldn't end up here at all */
-		min = 0;
-		max = 0;
 	}
+	/* the cache starts out empty (prev == next), and a range before the
+	 * first transition carries no usable index, so search the lot */
+	min = 0;
+	max = z->ntr;
 	return (z->cache = __find_zrng(z, t, min, max)).offs;
 }
 
